@@ -508,9 +508,17 @@ pub mod stdlib {
                 _source: &str,
                 parameters: &mut dyn Parameters,
             ) -> Result<Value, ExecutionError> {
-                let mut result = 0;
+                let mut result = 0u32;
                 while let Ok(parameter) = parameters.param() {
-                    result += parameter.as_integer()?;
+                    result = parameter
+                        .as_integer()?
+                        .checked_add(result)
+                        .ok_or_else(|| {
+                            ExecutionError::FunctionFailed(
+                                "plus".into(),
+                                format!("integer overflow"),
+                            )
+                        })?;
                 }
                 Ok(Value::Integer(result))
             }
